@@ -7,6 +7,7 @@ method x params x rpcid x version x flags x Config, plus random deep params.
 
 import itertools
 import json
+import random
 
 from vf import gen
 
@@ -310,6 +311,11 @@ def run(ctx):
         if stride > 1 and ((idx // ctx.nshards) + ctx.seed) % stride:
             continue
         n += 1
+        if n % 499 == 0:
+            # an application (or its test fixtures) re-seeds the global pseudo-random generator: generated ids
+            # must stay unique all the same
+            random.seed(20240917)
+            ctx.count("global-random-reseeded")
         api = "dump" if n % 4 == 0 else "dumps"
         cname, cfg = cfgs[ci]
         one(ctx, st, jr, api, method, params, rpcid, version, mresp, notify, cname, cfg)
@@ -351,6 +357,9 @@ def run(ctx):
     # random deep params / results
     nr = ctx.pick(15000, 300000)
     for i in range(nr):
+        if i % 211 == 0:
+            random.seed(7)
+            ctx.count("global-random-reseeded")
         cname, cfg = rng.choice(cfgs)
         version = rng.choice(VERSIONS)
         rpcid = rng.choice(RPCIDS_VERBATIM + RPCIDS_GENERATE + [gen.rand_str(rng), gen.rand_int(rng),
